@@ -101,6 +101,17 @@ template <class K> static void c18_case(Ctx &ctx, bool thorough) {
     // unknown mandatory chunk spliced in
     { std::string junk = ref_chunk("ZZZZ", "abc", 1, rng, false); size_t at = rf.chunks[rng.below(nc)].hdr_off; std::string mut = bytes.substr(0, at) + junk + bytes.substr(at);
       must_reject(mut, "an unknown mandatory chunk inserted", "oracle:c18.unknown-mandatory-accepted"); }
+    // (c2) the same content re-encoded with arrays split over several chunks, one span made inconsistent (overlap, overshoot,
+    //      gap, repetition, wrong order) while its payload matches its declared count
+    for (int i = 0, n = thorough ? 60 : 16; i < n; ++i) {
+        RefVariant v; v.hostile = 1; v.max_split = 1 + (int)rng.below(4); if (rng.chance(1, 3)) { v.handle_offset = rng.chance(1, 2); v.widen = (int)rng.below(3); v.order = (int)rng.below(3); }
+        std::string mut = ref_encode(cm, v, rng); Canon cx; std::string e2;
+        if (v.hostile_desc.empty()) continue;
+        ctx.cnt.add("c18.span-edits");
+        if (ref_to_canon(mut, cx, e2)) { ctx.cnt.add("c18.span-edits.still-valid"); continue; }
+        VF_NOTE("span edit: " << v.hostile_desc << " ref: " << e2);
+        must_reject(mut, "re-encoded file with " + v.hostile_desc + " (reference decoder: " + e2 + ")", "oracle:c18.span-edit-accepted");
+    }
     // (d) the input stream starts failing at byte k (it still reports its full size)
     size_t step_in = thorough ? 1 : std::max<size_t>(1, N / 150);
     for (size_t k = rng.below(step_in); k < N; k += step_in) for (int mode = 0; mode < 2; ++mode) {
@@ -228,11 +239,28 @@ template <class K> static void c07_case(Ctx &ctx, int nmut) {
     std::string base, other;
     if (ascii) { IO::FileManager fm; fm.setVerbosityLevel(0); std::ostringstream o1, o2; fm.writeStream(o1, *m); fm.writeStream(o2, *m2); base = o1.str(); other = o2.str(); }
     else { IO::WriteResult wr; base = write_ovmb_bytes([&](std::ostream &os) { return IO::ovmb_write(os, *m); }, wr); other = write_ovmb_bytes([&](std::ostream &os) { return IO::ovmb_write(os, *m2); }, wr); }
+    // OVMB: every second base file is a re-encoding by the independent encoder (arrays split over several chunks, wider integers,
+    // handle offsets, unknown chunks, other chunk orders) so that the mutations also act on multi-chunk files
+    Canon cm; bool have_canon = false;
+    auto random_variant = [&]() { RefVariant v; v.max_split = 1 + (int)rng.below(4); v.widen = (int)rng.below(3); v.float_pos = rng.chance(1, 3); v.force_variable_valence = rng.chance(1, 3) && cm.topo_type == 0;
+        v.handle_offset = rng.chance(1, 3); v.junk_chunks = rng.chance(1, 3); v.order = (int)rng.below(3); v.odd_padding = rng.chance(1, 4); return v; };
+    if (!ascii) { std::string err; have_canon = ref_to_canon(base, cm, err);
+        if (have_canon && (ctx.case_no / 10) % 2) { base = ref_encode(cm, random_variant(), rng); ctx.cls("c07.base:re-encoded"); } else ctx.cls("c07.base:writer"); }
     RefFile rf; if (!ascii) rf = ref_parse(base);
     ctx.op(std::string(ascii ? "ASCII" : "OVMB") + " base file of " + std::to_string(base.size()) + " bytes (" + KernelName<K>::name() + ")");
     for (int i = 0; i < nmut; ++i) {
         std::string desc;
-        std::string data = i == 0 ? base : ascii ? mutate_ascii(base, rng, desc) : mutate_ovmb(base, rf, other, rng, desc);
+        std::string data;
+        if (i == 0) data = base;
+        else if (ascii) data = mutate_ascii(base, rng, desc);
+        else if (have_canon && i >= 4 && rng.chance(1, 4)) {
+            // spans that overlap / overshoot / leave gaps / repeat, with payloads that match the declared counts
+            RefVariant v = random_variant(); v.hostile = 1; if (rng.chance(1, 2)) { v = RefVariant(); v.hostile = 1; v.max_split = 1 + (int)rng.below(4); }
+            data = ref_encode(cm, v, rng); desc = "re-encoded with hostile spans: " + v.hostile_desc;
+            ctx.cnt.add(v.hostile_desc.empty() ? "c07.inputs.reencoded-valid" : "c07.inputs.hostile-spans");
+            if (rng.chance(1, 3)) { RefFile r2 = ref_parse(data); std::string d2; data = mutate_ovmb(data, r2, other, rng, d2); desc += d2; }
+        }
+        else data = mutate_ovmb(base, rf, other, rng, desc);
         if (i == 1) { data.clear(); desc = "empty input"; }
         if (i == 2) { data.clear(); size_t n = rng.below(200); for (size_t k = 0; k < n; ++k) data += (char)rng.below(256); desc = "random bytes"; }
         if (i == 3) { data = ascii ? other + base : base + other; desc = "two files concatenated"; }
